@@ -465,8 +465,10 @@ class Universe(object):
 
         evmgr = self.method_evmgr
 
+        shared_evmgrs = [evmgr]      # ONE list object for every method
+
         def rpc(*a, **kw):
-            kw['_evmgr'] = evmgr
+            kw['_evmgrs'] = shared_evmgrs
             return _rpc(*a, **kw)
 
         ns = {}
